@@ -3,7 +3,7 @@
     loop, no sleep after), C05_while_ends_on_max, C05_while_sleeps_between (exactly the
     strategy's duration for that attempt number, between attempts only) apply verbatim with
     [iter := retry_iter] and [interval := backoff ...]; they are restated here for retry. *)
-From PV Require Import Engine EngineProofs.
+From PV Require Import Engine EngineProofs Leaves GenProofs.
 From Coq Require Import QArith.
 Open Scope string_scope.
 Notation RG := (list val -> option string -> option string -> st -> R).
@@ -108,6 +108,22 @@ Theorem C06_exponential : forall s q mx jrc r base n,
   backoff "exponential" s mx jrc r base n = Some (qmin_opt (qpow base n * q) mx).
 Proof. exact backoff_exponential. Qed.
 Print Assumptions C06_exponential.
+
+(** Tie B: the strategies above are the formulas GENERATED from the current source of
+    pypyr/retries.py (linear.__call__, exponential.__call__, BackoffBase.min) *)
+Theorem C06_linear_is_the_code : forall sleep mx jrc r base n,
+  backoff "linear" (VFloat sleep) mx jrc r base n = Some (gen_linear sleep mx n).
+Proof. exact gen_linear_is_model. Qed.
+Print Assumptions C06_linear_is_the_code.
+
+Theorem C06_exponential_is_the_code : forall sleep mx jrc r base n,
+  backoff "exponential" (VFloat sleep) mx jrc r base n = Some (gen_exponential sleep base mx n).
+Proof. exact gen_exponential_is_model. Qed.
+Print Assumptions C06_exponential_is_the_code.
+
+Theorem C06_cap_is_the_code : forall mx x, gen_backoff_min mx x = qmin_opt x mx.
+Proof. exact gen_backoff_min_is_model. Qed.
+Print Assumptions C06_cap_is_the_code.
 
 (** capped by sleepMax *)
 Theorem C06_cap : forall x m,
